@@ -415,6 +415,34 @@ def f_occ(tier="quick", seed=0):
     add(name, decl, exprs, {"M": ["uniform_shape(1)"], "K": ["uniform_occupancy(A.2)"], "(M0, K0)": ["flatten()"],
                             "M0K0": ["uniform_occupancy(A.2)"]},
         [["M1", "K1", "M0K01", "M0K00"], ["N"]], {"K": 3, "M": 2, "N": 2}, tag="dynflat")
+    # several flattenings of one tensor; flattening of three ranks including all output ranks; flatten after a split
+    def core(nm, d, ex, part, lo, ext, sizes=None):
+        out = out_name(ex[0])
+        specs.append({"name": "occ/core/" + nm, "decl": d, "exprs": ex, "mapping": {"partitioning": {out: part}, "loop-order": {out: lo}},
+                      "extents": ext, "sizes": sizes or {}, "tags": {"family": "occ", "template": "core", "core": True}})
+    d4 = {"A": ["K", "M", "N", "O"], "B": ["K", "M", "N", "O"], "Z": []}
+    e4 = ["Z[] = A[k, m, n, o] * B[k, m, n, o]"]
+    x4 = {"K": 2, "M": 2, "N": 2, "O": 1}
+    core("flat2-adjacent", d4, e4, {"(K, M)": ["flatten()"], "(N, O)": ["flatten()"]}, ["KM", "NO"], x4)
+    core("flat2-adjacent-rev", d4, e4, {"(N, O)": ["flatten()"], "(K, M)": ["flatten()"]}, ["NO", "KM"], x4)
+    core("flat2-interleaved", d4, e4, {"(K, N)": ["flatten()"], "(M, O)": ["flatten()"]}, ["KN", "MO"], x4)
+    core("flat2-out", {"A": ["K", "M", "N", "O"], "B": ["K", "M", "N", "O"], "Z": ["K", "M", "N", "O"]},
+         ["Z[k, m, n, o] = A[k, m, n, o] * B[k, m, n, o]"], {"(K, M)": ["flatten()"], "(N, O)": ["flatten()"]}, ["KM", "NO"], x4)
+    d3 = {"A": ["M", "N", "O"], "B": ["M", "N", "O"], "Z": ["M", "N", "O"]}
+    e3 = ["Z[m, n, o] = A[m, n, o] * B[m, n, o]"]
+    x3 = {"M": 2, "N": 2, "O": 2}
+    core("flat3", d3, e3, {"(M, N, O)": ["flatten()"]}, ["MNO"], x3)
+    core("flat3+occ", d3, e3, {"(M, N, O)": ["flatten()"], "MNO": ["uniform_occupancy(A.3)"]}, ["MNO1", "MNO0"], x3)
+    dj = {"A": ["M", "K", "J", "N"], "B": ["M", "K", "J", "N"], "Z": []}
+    ej = ["Z[] = A[m, k, j, n] * B[m, k, j, n]"]
+    core("flat-split-flat", dj, ej, {"(M, K)": ["flatten()"], "J": ["uniform_shape(2)"], "(J0, N)": ["flatten()"]}, ["MK", "J1", "J0N"],
+         {"M": 2, "K": 2, "J": 3, "N": 1})
+    core("flat3-lookup", {"A": ["M", "K", "J"], "B": ["K", "J", "N"], "Z": ["M", "N"]}, ["Z[m, n] = A[m, k, j] * B[k, j, n]"],
+         {"(M, K, J)": ["flatten()"]}, ["MKJ", "N"], {"M": 2, "K": 2, "J": 2, "N": 2})
+    core("flat-out-adjacent", {"A": ["K", "M", "N"], "B": ["K", "M", "N"], "Z": ["M", "N"]}, ["Z[m, n] = A[k, m, n] * B[k, m, n]"],
+         {"(M, N)": ["flatten()"]}, ["K", "MN"], {"K": 2, "M": 2, "N": 2})
+    core("flat-first-then-occ", {"A": ["K", "M", "N"], "B": ["K", "M", "N"], "Z": ["N"]}, ["Z[n] = A[k, m, n] * B[k, m, n]"],
+         {"(K, M)": ["flatten()"], "KM": ["uniform_occupancy(A.3)"]}, ["KM1", "KM0", "N"], {"K": 2, "M": 2, "N": 2})
     # accelerator mappings with architecture stripped, sizes scaled to the extents
     specs.append({"name": "occ/demo-scaled", "decl": decl, "exprs": exprs, "mapping": {
         "partitioning": {"Z": {"M": ["uniform_shape(M2)", "uniform_occupancy(A.M1)", "uniform_occupancy(A.M0)"],
